@@ -27,6 +27,40 @@ from harness.fakes.schedloop import SchedLoop
 import wpull.pipeline.pipeline as P
 
 
+def _attr(obj, name, pred, none_ok=False):
+    """the private attribute `name` of obj - or, when a maintenance commit has renamed it, the one attribute that satisfies pred
+    (observation must not depend on how private names are spelled)"""
+    d = vars(obj)
+    if name in d:
+        return d[name]
+    hits = [v for v in d.values() if pred(v)]
+    if len(hits) == 1:
+        return hits[0]
+    if not hits and none_ok:
+        return None
+    raise AttributeError('cannot identify the attribute formerly called %s on %s (%d candidates)' % (name, type(obj).__name__, len(hits)))
+
+
+def p_state(pipeline):
+    return _attr(pipeline, '_state', lambda v: isinstance(v, P.PipelineState))
+
+
+def p_queue(pipeline):
+    return _attr(pipeline, '_item_queue', lambda v: isinstance(v, P.ItemQueue))
+
+
+def q_inner(q):
+    return _attr(q, '_queue', lambda v: isinstance(v, asyncio.Queue))
+
+
+def q_cond(q):
+    return _attr(q, '_worker_ready_condition', lambda v: isinstance(v, asyncio.Condition))
+
+
+def p_producer_task(pipeline):
+    return _attr(pipeline, '_producer_task', lambda v: isinstance(v, asyncio.Future), none_ok=True)
+
+
 class TaskBoom(Exception):
     pass
 
@@ -103,7 +137,10 @@ class Director:
         qn = getattr(gen, '__qualname__', '') or getattr(coro, '__qualname__', '')
         if qn.endswith('Pipeline.process'):
             return 'main'
-        if qn.endswith('_run_producer_wrapper'):
+        parts = qn.split('.')
+        if qn.endswith('_run_producer_wrapper') or qn.endswith('Producer.process') or \
+                (len(parts) >= 2 and parts[-2] == 'Pipeline' and parts[-1] != 'process'):
+            # the one other task a Pipeline spawns is the producer (whatever its private wrapper is called)
             return 'prod'
         if qn.endswith('Worker.process'):
             self.worker_count += 1
@@ -142,7 +179,7 @@ class Director:
             return ('finish', None)
         self.last_ready = list(ready)
         oblig, optional = self.env_options()
-        paused = (self.pipeline._state == P.PipelineState.running and self.pipeline._concurrency == 0)
+        paused = (p_state(self.pipeline) == P.PipelineState.running and self.pipeline.concurrency == 0)
         if not ready and not oblig:
             if paused:
                 # the environment owes an unpause (property: "pauses followed by an unpause")
@@ -201,13 +238,13 @@ class Director:
             fut.set_exception(SrcBoom())
         elif kind == 'stop':
             self.stops -= 1
-            if self.pipeline._state == P.PipelineState.running:
+            if p_state(self.pipeline) == P.PipelineState.running:
                 self.effective_stops += 1
                 self.trace[-1].append('effective')
-                q = self.pipeline._item_queue
-                if q._queue.qsize() > 0 and len(q._worker_ready_condition._waiters) > 0:
+                q = p_queue(self.pipeline)
+                if q_inner(q).qsize() > 0 and len(q_cond(q)._waiters) > 0:
                     self.trace[-1].append('producer-parked')       # the F26 situation
-                if self.pipeline._concurrency == 0:
+                if self.pipeline.concurrency == 0:
                     self.trace[-1].append('paused')                # the F31 situation
             self.pipeline.stop()
         elif kind == 'conc':
@@ -267,9 +304,10 @@ def run_case(case):
         signal.setitimer(signal.ITIMER_VIRTUAL, 0)
     if loop.stuck:
         d.terminal = 'stuck'
-    state = {'pstate': pipeline._state.value, 'conc': pipeline._concurrency,
-             'qsize': pipeline._item_queue._queue.qsize(), 'unfinished': pipeline._item_queue.unfinished_items,
-             'producer_done': bool(pipeline._producer_task and pipeline._producer_task.done())}
+    ptask = p_producer_task(pipeline)
+    state = {'pstate': p_state(pipeline).value, 'conc': pipeline.concurrency,
+             'qsize': q_inner(p_queue(pipeline)).qsize(), 'unfinished': p_queue(pipeline).unfinished_items,
+             'producer_done': bool(ptask and ptask.done())}
     # do not let pending tasks complain at interpreter exit
     for t in list(loop.task_names):
         if not t.done():
